@@ -17,8 +17,12 @@ Four sub-domains (case["mode"]):
             the server's key / a different key of the same type / other types; every line in one of
             the forms of the OpenSSH file format: "names type key", with a trailing comment, tab-separated,
             or behind a marker - "@revoked ..." / "@cert-authority ..." - and optionally preceded by a comment
-            line, a blank line or a line with too few fields), system or local
-            store, policy Reject / AutoAdd / Warning / custom accepting / custom raising / an AutoAdd
+            line, a blank line or a line with too few fields; a later line may OVERLAP an earlier one the way
+            merged / hand-maintained files do: it repeats the key and one or all names of an earlier line and adds
+            names of its own - or is a plain duplicate -, names in generated order, two hashed lines then sharing the
+            salt; the lines may be spread over TWO files loaded one after the other into the same store), system or local
+            store, the host NAME in one of 4 spellings (lower / mixed / upper case; pins and connect() use the same
+            spelling - whether a differently spelled pin counts as known is not asserted), policy Reject / AutoAdd / Warning / custom accepting / custom raising / an AutoAdd
             subclass that records the key and then raises. A raising policy raises an exception of a
             GENERATED class (SSHException family, OSError family incl. socket errors, other builtins,
             plain Exception; the class itself or a fresh subclass; with / without errno / arguments).
@@ -26,8 +30,12 @@ Four sub-domains (case["mode"]):
             (one path / a list), combinations, and auth_strategy= with an AuthStrategy yielding
             Password / InMemoryPrivateKey / OnDiskPrivateKey / NoneAuth sources (1-2 of them);
             agent and ~/.ssh discovery are off.
+ pinned     (a second sshclient / history generator) at least one line, every pinned key one that no server of the harness
+            presents, overlapping lines frequent, the policy mostly an accepting one: the region where "known host,
+            different key -> nothing is sent" is all that stands between the credentials and an impostor.
  history    ONE SSHClient object (system store + user store loaded from generated known_hosts texts:
-            plain and hashed names of two hosts x three ports, 7 keys, the same line forms) living through a generated
+            plain and hashed names of two hosts (each in one of 4 spellings) x three ports, 7 keys, the same line forms,
+            overlapping lines, the user store optionally split over two files) living through a generated
             sequence of 2-6 events: connect(host, port, server key set, policy, auth method) - every
             connect to a fresh server - and lookups on either HostKeys object (lookup / check / in /
             keys) with generated names. The model of "known" is the union of both stores plus what an
@@ -75,13 +83,17 @@ RULE = (
     "(9 stages, the link holding back the server's chunks); (connect) server host key set x hostkey argument in "
     "{same, sibling of same type, other type, none} x auth method; (sshclient) server host key set x port x 0..4 known_hosts lines "
     "(name kind x hashed x key x line form: plain / trailing comment / tab-separated / @revoked marker / @cert-authority marker, x preceding "
-    "comment / blank / short line; a marker line never makes a host known) x store x 6 policies (Reject, AutoAdd, Warning, accepting, raising, AutoAdd-then-raising; a raising policy "
+    "comment / blank / short line; a marker line never makes a host known; a later line may overlap an earlier one: same key + one / all of "
+    "its names + own names, or a plain duplicate, names permuted, shared salt for hashed lines; optionally split over two files loaded into "
+    "one store) x host-name spelling (4: lower / mixed / upper case, same spelling in pins and connect()) x store x 6 policies (Reject, AutoAdd, Warning, accepting, raising, AutoAdd-then-raising; a raising policy "
     "raises a generated exception class: 17 bases from the SSHException / OSError / other-builtin families, itself or a fresh subclass, "
     "3 argument shapes) x 11 ways of supplying the credentials (password=, pkey=, key_filename= path or list, combinations, auth_strategy= "
     "with Password / InMemoryPrivateKey / OnDiskPrivateKey / NoneAuth sources); (history) one SSHClient with a system and a user store "
-    "(0..3 lines each: 1-2 names of 2 hosts x 3 ports, plain or hashed, 7 keys, the same line forms incl. marker lines) driven through 2..6 events in generated order - "
+    "(0..3 lines each: 1-2 names of 2 hosts (4 spellings each) x 3 ports, plain or hashed, 7 keys, the same line forms incl. marker lines, "
+    "overlapping lines, user store optionally split over two files) driven through 2..6 events in generated order - "
     "connects (host x port x server key set x policy (+ exception class) x credential source, each to a fresh server) and HostKeys lookups (4 APIs x store x name) - "
-    "with the oracle evaluated per connect against the union of both stores plus earlier AutoAdd additions; quick enumerates all lifecycle stage x method x class "
+    "with the oracle evaluated per connect against the union of both stores plus earlier AutoAdd additions; (pinned) sshclient and history "
+    "configurations with >= 1 line, only keys no server presents, mostly accepting policies, frequent overlaps; quick enumerates all lifecycle stage x method x class "
     "combinations; non-trivial = the model forbids sending (mismatch / rejected unknown host), or the auth call happens before "
     "the key exchange finished, or an unknown host is accepted by a policy; distinct by configuration"
 )
@@ -189,20 +201,81 @@ entry_st = st.fixed_dictionaries(
         "before": before_st,
     }
 )
-sshclient_st = st.fixed_dictionaries(
-    {
-        "mode": st.just("sshclient"),
-        "server_keys": server_keys,
-        "port": st.sampled_from([22, 22, 2222]),
-        "entries": st.lists(entry_st, max_size=4),
-        "store": st.sampled_from(["system", "local"]),
-        "policy": st.sampled_from(POLICIES),
-        "how": how_st,
-        "secret": secret,
-    }
-).flatmap(_with_exc)
 
-HOSTS = [HOST, OTHERHOST]
+
+@st.composite
+def overlapping(draw, base, min_size=0, max_size=4, often=False):
+    """A list of known_hosts entries in which a later line may OVERLAP an earlier one, the way merged / hand-maintained files
+    do (name + alias / address lines sharing one host key, a line repeated with one more name, a plain duplicate): the later
+    line takes the key of an earlier line and one or all of its names, plus (unless it is a plain duplicate) its own names, in
+    generated order. Two hashed lines then share the salt, i.e. the hashed name is textually the same ("salt_i")."""
+    es = draw(st.lists(base, min_size=min_size, max_size=max_size))
+    out = []
+    for i, e in enumerate(es):
+        if i and draw(st.integers(0, 1 if often else 3)) == 0:
+            j = draw(st.integers(0, i - 1))
+            src = out[j]
+            how = draw(st.sampled_from(["one-name", "one-name", "one-name", "all-names", "same-line"]))
+            shared = [draw(st.sampled_from(src["names"]))] if how == "one-name" else list(src["names"])
+            names = shared if how == "same-line" else list(draw(st.permutations(shared + [n for n in e["names"] if n not in shared])))
+            e = dict(e, names=names, key=src["key"])
+            if e["hashed"] and src["hashed"]:
+                e["salt_i"] = src.get("salt_i", j)
+        out.append(e)
+    return out
+
+
+def split_of(entries):
+    """Optionally the file is really TWO files loaded one after the other into the same store (None: one file)."""
+    return st.sampled_from([None] * 3 + list(range(1, len(entries)))) if len(entries) > 1 else st.none()
+
+
+# host names are case-insensitive for DNS but a known_hosts name is a string: the name is generated in several spellings; the
+# pins and connect() always use the SAME spelling (whether a differently spelled pin counts as known is not asserted)
+HOST_SPELLINGS = [HOST, "Verif.Example.ORG", "VERIF.EXAMPLE.ORG", "verif.Example.org"]
+OTHER_SPELLINGS = [OTHERHOST, "Other.Example.Org", "OTHER.EXAMPLE.ORG", "other.example.ORG"]
+spell_st = st.integers(0, len(HOST_SPELLINGS) - 1)
+# keys no server of this harness ever presents: a pin made of them is "a different key of the same type / only other key types"
+FOREIGN_KEYS = ["ed25519b", "ecdsa256b", "rsa2048b", "ecdsa521"]
+ACCEPTING = ["autoadd", "warning", "accept"]
+
+
+def _sshclient(entries, policies):
+    return (
+        st.fixed_dictionaries(
+            {
+                "mode": st.just("sshclient"),
+                "server_keys": server_keys,
+                "port": st.sampled_from([22, 22, 2222]),
+                "entries": entries,
+                "store": st.sampled_from(["system", "local"]),
+                "policy": st.sampled_from(policies),
+                "how": how_st,
+                "secret": secret,
+                "spell": spell_st,
+            }
+        )
+        .flatmap(lambda d: split_of(d["entries"]).map(lambda k: dict(d, split=k) if k else d))
+        .flatmap(_with_exc)
+    )
+
+
+sshclient_st = _sshclient(overlapping(entry_st), POLICIES)
+# pin-centred: at least one line, every pinned key is one the server does NOT present, the policy mostly one that would accept
+# an unknown host, overlapping lines frequent: the region where "known host, different key -> nothing is sent" is all that
+# stands between the credentials and an impostor
+pinned_entry_st = st.fixed_dictionaries(
+    {
+        "names": st.lists(st.sampled_from(["exact", "exact", "bare", "otherport", "otherhost"]), min_size=1, max_size=2, unique=True),
+        "hashed": st.booleans(),
+        "key": st.sampled_from(FOREIGN_KEYS),
+        "form": form_st,
+        "before": before_st,
+    }
+)
+pinned_st = _sshclient(overlapping(pinned_entry_st, min_size=1, often=True), ACCEPTING * 3 + ["reject", "raise"])
+
+HOSTS = [HOST, OTHERHOST]  # history mode: case["spell"] = [i, j] selects the spelling of each (absent: these)
 CONNECT_PORTS = [22, 2222]
 ENTRY_PORTS = [22, 2222, 2200]
 name_st = st.tuples(st.integers(0, len(HOSTS) - 1), st.sampled_from(ENTRY_PORTS)).map(list)
@@ -227,14 +300,34 @@ lookup_ev = st.fixed_dictionaries(
         "key": st.sampled_from(SERVER_KEY_TYPES),
     }
 )
-history_st = st.fixed_dictionaries(
+
+
+def _history(hentry, cev, often=False):
+    return st.fixed_dictionaries(
+        {
+            "mode": st.just("history"),
+            "stores": st.fixed_dictionaries({"system": overlapping(hentry, max_size=3, often=often), "user": overlapping(hentry, max_size=3, often=often)}),
+            "events": st.lists(st.one_of(cev, cev.map(lambda x: x), lookup_ev), min_size=2, max_size=6).filter(lambda ev: any(e["op"] == "connect" for e in ev)),
+            "secret": secret,
+            "spell": st.lists(spell_st, min_size=2, max_size=2),
+        }
+    ).flatmap(lambda d: split_of(d["stores"]["user"]).map(lambda k: dict(d, user_split=k) if k else d))
+
+
+history_st = _history(hentry_st, connect_ev)
+# pin-centred histories: every pinned key is foreign to the servers, the policies mostly accepting (see pinned_st)
+pinned_hentry_st = st.fixed_dictionaries({"names": st.lists(name_st, min_size=1, max_size=2, unique_by=tuple), "hashed": st.booleans(), "key": st.sampled_from(FOREIGN_KEYS), "form": form_st, "before": before_st})
+pinned_connect_ev = st.fixed_dictionaries(
     {
-        "mode": st.just("history"),
-        "stores": st.fixed_dictionaries({"system": st.lists(hentry_st, max_size=3), "user": st.lists(hentry_st, max_size=3)}),
-        "events": st.lists(st.one_of(connect_ev, connect_ev, lookup_ev), min_size=2, max_size=6).filter(lambda ev: any(e["op"] == "connect" for e in ev)),
-        "secret": secret,
+        "op": st.just("connect"),
+        "host": st.integers(0, len(HOSTS) - 1),
+        "port": st.sampled_from(CONNECT_PORTS),
+        "server_keys": server_keys,
+        "policy": st.sampled_from(ACCEPTING * 3 + ["reject", "raise"]),
+        "how": how_st,
     }
-)
+).flatmap(_with_exc)
+pinned_history_st = _history(pinned_hentry_st, pinned_connect_ev, often=True)
 
 case_st = st.one_of(lifecycle_st, connect_st, sshclient_st, sshclient_st)
 
@@ -590,18 +683,43 @@ def exc_class(exc):
     return "%s:%s%s" % (fam, base.__name__, ":subclass" if (exc or {}).get("sub") else "")
 
 
-def entry_names(kinds, port):
+def spelled(case):
+    """(host, other host) as this sshclient case spells them (older cases: the lower-case constants)."""
+    i = case.get("spell", 0)
+    return HOST_SPELLINGS[i % len(HOST_SPELLINGS)], OTHER_SPELLINGS[i % len(OTHER_SPELLINGS)]
+
+
+def spelling_class(name):
+    return "lower-case" if name == name.lower() else "upper-case" if name == name.upper() else "mixed-case"
+
+
+def entry_names(kinds, port, host=HOST, other=OTHERHOST):
     out = []
     for k in kinds:
         if k == "exact":
-            out.append(lookup_name(HOST, port))
+            out.append(lookup_name(host, port))
         elif k == "bare":
-            out.append(HOST)
+            out.append(host)
         elif k == "otherport":
-            out.append("[%s]:%d" % (HOST, 2200))
+            out.append("[%s]:%d" % (host, 2200))
         else:
-            out.append(lookup_name(OTHERHOST, port))
+            out.append(lookup_name(other, port))
     return out
+
+
+def overlap_classes(lines, want, classes):
+    """lines = [(set of plain names, key blob, is_marker)] of ONE store in file order. Evidence classes of the overlaps between a
+    line and the lines before it (same key, common names)."""
+    for i, (names, blob, marker) in enumerate(lines):
+        common = set()
+        for names0, blob0, marker0 in lines[:i]:
+            if blob0 == blob and not marker0:
+                common |= names & names0
+        if not common or marker:
+            continue
+        classes.add("known_hosts-line-overlaps-an-earlier-line:" + ("all-of-its-names" if common == names else "some-of-its-names"))
+        if common != names and want in names - common and not any(want in n0 for n0, b0, m0 in lines[:i] + lines[i + 1 :] if not m0):
+            classes.add("connected-name-stands-only-on-a-line-that-partly-repeats-an-earlier-line")
 
 
 def hash_name(name, salt):
@@ -651,14 +769,18 @@ def load_store(load, path, entries, classes):
     return None
 
 
-def known_hosts_text(case):
-    lines = []
+def known_hosts_texts(case):
+    """The text of the known_hosts file - or of the two files (case["split"]) that are loaded one after the other."""
+    host, other = spelled(case)
+    per_entry = []
     for i, e in enumerate(case["entries"]):
-        names = entry_names(e["names"], case["port"])
+        names = entry_names(e["names"], case["port"], host, other)
         if e["hashed"]:
-            names = [hash_name(n, hashlib.sha1(("salt-%d-%s" % (i, n)).encode()).digest()) for n in names]
-        lines += entry_lines(e, names)
-    return "\n".join(lines) + ("\n" if lines else "")
+            names = [hash_name(n, hashlib.sha1(("salt-%d-%s" % (e.get("salt_i", i), n)).encode()).digest()) for n in names]
+        per_entry.append(entry_lines(e, names))
+    k = case.get("split")
+    parts = [per_entry[:k], per_entry[k:]] if k else [per_entry]
+    return ["".join(l + "\n" for ls in part for l in ls) for part in parts]
 
 
 def run_sshclient(ctx, case, classes):
@@ -676,11 +798,19 @@ def run_sshclient(ctx, case, classes):
     pol = case["policy"]
     policy = make_policy_obj(paramiko, pol, marks, mark, case.get("exc"))
     try:
-        path = os.path.join(ctx.tmpdir(), "known_hosts_%d" % ctx.evaluations)
-        with open(path, "w") as f:
-            f.write(known_hosts_text(case))
-        load_exc = load_store(client.load_system_host_keys if case["store"] == "system" else client.load_host_keys, path, case["entries"], classes)
+        host, other = spelled(case)
+        load_exc = None
+        k = case.get("split")
+        parts = [case["entries"][:k], case["entries"][k:]] if k else [case["entries"]]
+        for n, text in enumerate(known_hosts_texts(case)):
+            path = os.path.join(ctx.tmpdir(), "known_hosts_%d_%d" % (ctx.evaluations, n))
+            with open(path, "w") as f:
+                f.write(text)
+            load_exc = load_store(client.load_system_host_keys if case["store"] == "system" else client.load_host_keys, path, parts[n], classes) or load_exc
+        if k:
+            classes.add("known_hosts-in-two-files-loaded-into-one-store")
         line_classes(case["entries"], classes)
+        classes.add("host-name-spelling:" + spelling_class(host))
         client.set_missing_host_key_policy(policy)
         start_server(ts, good_server(case))
         how = how_of(case)
@@ -689,14 +819,17 @@ def run_sshclient(ctx, case, classes):
         with warnings.catch_warnings():
             warnings.simplefilter("ignore")
             try:
-                client.connect(HOST, port=case["port"], username=USER, sock=link.a, allow_agent=False, look_for_keys=False, timeout=T, banner_timeout=T, auth_timeout=T, transport_factory=peers.VTransport, **kw)
+                client.connect(host, port=case["port"], username=USER, sock=link.a, allow_agent=False, look_for_keys=False, timeout=T, banner_timeout=T, auth_timeout=T, transport_factory=peers.VTransport, **kw)
             except Exception as e:
                 raised = e
         tc = client.get_transport()
         settle(link, tc, ts)
         # ---- model
-        want = lookup_name(HOST, case["port"])
-        named = [e for e in case["entries"] if want in entry_names(e["names"], case["port"])]
+        want = lookup_name(host, case["port"])
+        named = [e for e in case["entries"] if want in entry_names(e["names"], case["port"], host, other)]
+        overlap_classes([(set(entry_names(e["names"], case["port"], host, other)), A.pub_blob(e["key"]), is_marker(e)) for e in case["entries"]], want, classes)
+        if [e for e in named if not is_marker(e)]:
+            classes.add("pinned-under-a-%s-name" % spelling_class(host))
         # only ordinary lines make a key a known host key; a marker line (@revoked / @cert-authority) never does
         matching = [e for e in named if not is_marker(e)]
         presented = presented_key(link)
@@ -757,18 +890,52 @@ def run_sshclient(ctx, case, classes):
 # ----------------------------------------------------------------------------- SSHClient histories
 
 
-def abs_name(n):
-    return lookup_name(HOSTS[n[0]], n[1])
+def history_hosts(case):
+    """The two host names as this history spells them (older cases: the lower-case constants)."""
+    sp = case.get("spell") or [0, 0]
+    return [HOST_SPELLINGS[sp[0] % len(HOST_SPELLINGS)], OTHER_SPELLINGS[sp[1] % len(OTHER_SPELLINGS)]]
 
 
-def store_text(entries, tag):
-    lines = []
+def abs_name(n, hosts=HOSTS):
+    return lookup_name(hosts[n[0]], n[1])
+
+
+def store_texts(entries, tag, hosts=HOSTS, split=None):
+    """The text of one store's file - or of the two files (split) loaded one after the other into that store."""
+    per_entry = []
     for i, e in enumerate(entries):
-        names = [abs_name(n) for n in e["names"]]
+        names = [abs_name(n, hosts) for n in e["names"]]
         if e["hashed"]:
-            names = [hash_name(n, hashlib.sha1(("salt-%s-%d-%s" % (tag, i, n)).encode()).digest()) for n in names]
-        lines += entry_lines(e, names)
-    return "\n".join(lines) + ("\n" if lines else "")
+            names = [hash_name(n, hashlib.sha1(("salt-%s-%d-%s" % (tag, e.get("salt_i", i), n)).encode()).digest()) for n in names]
+        per_entry.append(entry_lines(e, names))
+    parts = [per_entry[:split], per_entry[split:]] if split else [per_entry]
+    return ["".join(l + "\n" for ls in part for l in ls) for part in parts]
+
+
+def drop_line(case, tag, j):
+    """The history without line j of store `tag` (references to line numbers - shared salts, the file split - adjusted)."""
+    st_ = dict(case["stores"])
+    rest = []
+    for i, e in enumerate(st_[tag]):
+        if i == j:
+            continue
+        if "salt_i" in e:
+            e = dict(e)
+            if e["salt_i"] == j:
+                del e["salt_i"]
+            elif e["salt_i"] > j:
+                e["salt_i"] -= 1
+        rest.append(e)
+    st_[tag] = rest
+    out = dict(case, stores=st_)
+    k = case.get("user_split")
+    if tag == "user" and k:
+        k = k - 1 if j < k else k
+        if 0 < k < len(rest):
+            out["user_split"] = k
+        else:
+            out.pop("user_split", None)
+    return out
 
 
 class _Capture:
@@ -826,22 +993,35 @@ def execute_history(ctx, case, classes):
     cap = _Capture()
     client = paramiko.SSHClient()
     d = ctx.tmpdir()
-    paths = {}
-    for tag in ("system", "user"):
-        paths[tag] = os.path.join(d, "kh_%s_%d_%d" % (tag, ctx.evaluations, threading.get_ident()))
-        with open(paths[tag], "w") as f:
-            f.write(store_text(case["stores"][tag], tag))
-    refused = {
-        "system": load_store(client.load_system_host_keys, paths["system"], case["stores"]["system"], classes) is not None,
-        "user": load_store(client.load_host_keys, paths["user"], case["stores"]["user"], classes) is not None,
-    }
+    hosts = history_hosts(case)
+    usplit = case.get("user_split")
+    refused = {}  # (store, file number) -> loading that file raised
+    for tag, load in (("system", client.load_system_host_keys), ("user", client.load_host_keys)):
+        ents = case["stores"][tag]
+        split = usplit if tag == "user" and usplit and 0 < usplit < len(ents) else None
+        parts = [ents[:split], ents[split:]] if split else [ents]
+        for n, text in enumerate(store_texts(ents, tag, hosts, split)):
+            path = os.path.join(d, "kh_%s%d_%d_%d" % (tag, n, ctx.evaluations, threading.get_ident()))
+            with open(path, "w") as f:
+                f.write(text)
+            refused[(tag, n)] = load_store(load, path, parts[n], classes) is not None
+        if split:
+            classes.add("known_hosts-in-two-files-loaded-into-one-store")
+    usplit = usplit if usplit and 0 < usplit < len(case["stores"]["user"]) else None
+
+    def sure(tag, idx):
+        return not refused[(tag, 1 if tag == "user" and usplit and idx >= usplit else 0)]
+
     for tag in ("system", "user"):
         line_classes(case["stores"][tag], classes)
+    for h in hosts:
+        classes.add("host-name-spelling:" + spelling_class(h))
     stores = {"system": client._system_host_keys, "user": client.get_host_keys()}
     # model of "known to this SSHClient": (plain names, key blob, sure) of every ORDINARY line of both stores (a marker line
     # never makes its key a known host key), plus AutoAdd additions; sure=False: the line stands in a file whose loading raised
-    known = [(set(abs_name(n) for n in e["names"]), A.pub_blob(e["key"]), not refused[tag]) for tag in ("system", "user") for e in case["stores"][tag] if not is_marker(e)]
-    marked = [(set(abs_name(n) for n in e["names"]), A.pub_blob(e["key"]), e["form"]) for tag in ("system", "user") for e in case["stores"][tag] if is_marker(e)]
+    known = [(set(abs_name(n, hosts) for n in e["names"]), A.pub_blob(e["key"]), sure(tag, idx)) for tag in ("system", "user") for idx, e in enumerate(case["stores"][tag]) if not is_marker(e)]
+    marked = [(set(abs_name(n, hosts) for n in e["names"]), A.pub_blob(e["key"]), e["form"]) for tag in ("system", "user") for e in case["stores"][tag] if is_marker(e)]
+    store_lines = {tag: [(set(abs_name(n, hosts) for n in e["names"]), A.pub_blob(e["key"]), is_marker(e)) for e in case["stores"][tag]] for tag in ("system", "user")}
     hashed_in = {tag: any(e["hashed"] for e in case["stores"][tag]) for tag in ("system", "user")}
     names_seen = {"system": set(), "user": set()}  # names each HostKeys object has been asked about so far
     if case["stores"]["system"] and case["stores"]["user"]:
@@ -853,7 +1033,7 @@ def execute_history(ctx, case, classes):
     try:
         for i, ev in enumerate(case["events"]):
             out["at"] = i
-            want = lookup_name(HOSTS[ev["host"]], ev["port"])
+            want = lookup_name(hosts[ev["host"]], ev["port"])
             if ev["op"] == "lookup":
                 hk = stores[ev["store"]]
                 names_seen[ev["store"]].add(want)
@@ -891,7 +1071,7 @@ def execute_history(ctx, case, classes):
                 with warnings.catch_warnings():
                     warnings.simplefilter("ignore")
                     try:
-                        client.connect(HOSTS[ev["host"]], port=ev["port"], username=USER, sock=link.a, allow_agent=False, look_for_keys=False, timeout=T, banner_timeout=T, auth_timeout=T, transport_factory=peers.VTransport, **kw)
+                        client.connect(hosts[ev["host"]], port=ev["port"], username=USER, sock=link.a, allow_agent=False, look_for_keys=False, timeout=T, banner_timeout=T, auth_timeout=T, transport_factory=peers.VTransport, **kw)
                     except Exception as e:
                         raised = e
                 tc = client.get_transport()
@@ -899,15 +1079,19 @@ def execute_history(ctx, case, classes):
                     tc = None
                 settle(link, tc, ts)
                 # ---- model, for this connect
-                matching = [blob for names, blob, sure in known if want in names]
+                matching = [blob for names, blob, sure_ in known if want in names]
                 presented = presented_key(link)
+                for tag in ("system", "user"):
+                    overlap_classes(store_lines[tag], want, classes)
+                if matching:
+                    classes.add("pinned-under-a-%s-name" % spelling_class(hosts[ev["host"]]))
                 marker_only = ""
                 for names, blob, form in marked:
                     if want in names:
                         classes.add("marker-line-names-the-host:@%s:%s" % (form, "with-the-presented-key" if blob == presented else "with-another-key"))
                         if not matching:
                             marker_only = ":host-named-only-by-a-marker-line"
-                if matching and not any(sure for names, blob, sure in known if want in names):
+                if matching and not any(sure_ for names, blob, sure_ in known if want in names):
                     # every ordinary line naming the host stands in a file that was refused half-way: the client's own
                     # behaviour decides which clause applies (it consulted the policy = it treats the host as unknown)
                     classes.add("known-ordinary-line-in-a-refused-file:treated-as-" + ("unknown" if "called" in marks else "known"))
@@ -996,9 +1180,7 @@ def run_history(ctx, case, classes):
         for tag in ("system", "user"):
             j = 0
             while j < len(best["stores"][tag]):
-                st_ = dict(best["stores"])
-                st_[tag] = st_[tag][:j] + st_[tag][j + 1 :]
-                cand = dict(best, stores=st_)
+                cand = drop_line(best, tag, j)
                 if still(cand):
                     best = cand
                 else:
@@ -1053,7 +1235,9 @@ def run(ctx):
         run_case(ctx, c)
     ctx.note("lifecycle_combinations_enumerated", len(enum))
     ctx.explore(case_st, lambda c: run_case(ctx, c), ctx.scale(260, 2200), shrink=False)
-    ctx.explore(history_st, lambda c: run_case(ctx, c), ctx.scale(140, 1200), shrink=False, seed_offset=1)
+    ctx.explore(history_st, lambda c: run_case(ctx, c), ctx.scale(120, 1200), shrink=False, seed_offset=1)
+    ctx.explore(pinned_st, lambda c: run_case(ctx, c), ctx.scale(110, 900), shrink=False, seed_offset=2)
+    ctx.explore(pinned_history_st, lambda c: run_case(ctx, c), ctx.scale(40, 500), shrink=False, seed_offset=3)
     if ctx.classes.get("control:encrypted-userauth-seen", 0) == 0 and not ctx.budget_hit and not ctx.unknown:
         raise core.HarnessError("no accepted configuration ever showed an encrypted USERAUTH_REQUEST: the Tap would be vacuous")
 
